@@ -493,6 +493,14 @@ func runC08Case(cc C08Case) (*Fail, c08Stats, error) {
 		}
 	}
 	stt.calls = len(calls)
+	if d := os.Getenv("VERIF_DUMP_DIR"); d != "" {
+		os.MkdirAll(d, 0700)
+		var sb strings.Builder
+		for i, c := range rec.Calls {
+			fmt.Fprintf(&sb, "%d %s(%s) = %s [%s]\n", i+1, c.Name, tailStr(c.Args, 110), c.Ret, c.Role)
+		}
+		os.WriteFile(filepath.Join(d, "calls.txt"), []byte(sb.String()), 0600)
+	}
 	// ---- durability lint on the recorded trace
 	if okRes {
 		if f := durabilityLint(rec, work, sig0); f != nil {
